@@ -13,11 +13,18 @@ Space (decode: binary config -> get_language_and_region(); encode: ARSCResTableC
 A half is *judged* when it is one Android defines: zero, two lowercase letters / two [A-Z0-9] characters, or a packed
 triple whose three 5-bit fields are letters (< 26, language) / digits (< 10, region).  Other bit patterns are decoded
 too, but only counted.
+Histories: decoding is class-level code that may keep state, so every judged case is a HISTORY (earlier decodes, judged
+decode) in a process that was pristine before: each shard runs in a fork of a pristine process (mc/fresh.py), its
+enumeration order being its history, and explicitly for each of the 1000 byte pairs that are BOTH a judged packed
+language (letters a..j) and a judged packed region (digits): language reading then region reading, region then
+language (fresh ARSCResTableConfig objects, one process), and both inside one configuration.  A violation is re-run in
+pristine forks (alone, recorded history, shard prefix) and stored with the shortest history that reproduces it.
 Oracle: own implementation of AOSP unpackLanguageOrRegion / packLanguageOrRegion (ref_unpack / ref_pack below); the
 reported string must be  <lang>[-r<REGION>]  of the encoded codes, and constructing a configuration from that string
 must give the same 32-bit locale and report the same string again.
 """
 import io
+import os
 import struct
 
 from mc.core import Acc
@@ -27,7 +34,8 @@ LEVEL = "exploration"
 RULE = ("every 16-bit language half x 4 region halves, every 16-bit region half x 2 language halves, 26^2 x (36^2+1) "
         "two-character locales, 26^3 packed languages x 3 regions, 10^3 packed regions x 3 languages, default; each decoded "
         "through a binary ResTable_config and re-encoded through ARSCResTableConfig(locale=str); non-trivial = judged "
-        "locale != 0; distinct by the 32-bit locale value")
+        "locale != 0; distinct by the 32-bit locale value; plus explicit two-decode histories for the 1000 byte pairs that "
+        "read as a language and as a region; every shard starts in a pristine process")
 ASSUMPTIONS = [
     "halves that are not [a-z]{2} / [A-Z0-9]{2} / packed letters / packed digits (and a region without a language) are "
     "outside Android's definition: decoded, counted, not judged",
@@ -111,8 +119,10 @@ def decode(ax, locale):
     return cfg.get_language_and_region()
 
 
-def judge(ax, acc, lh, rh):
-    """One locale = (language half, region half).  Shared by run_shard and replay."""
+def judge(ax, acc, lh, rh, history=None, after=None, pf=None):
+    """One locale = (language half, region half), judged as the last call of `history` (default: alone).
+    Shared by the shards and replay.  after: kind of the colliding half decoded earlier (explicit histories);
+    pf: (shard, position) for replay through the shard prefix."""
     kl, kr = kind_lang(lh), kind_region(rh)
     locale = lh | (rh << 16)
     try:
@@ -125,7 +135,16 @@ def judge(ax, acc, lh, rh):
         if isinstance(got, Exception):
             acc.count("unjudged_raised_" + type(got).__name__)
         return
-    w = {"lang": lh, "region": rh}
+
+    def violation(key, msg):
+        w = {"history": [list(c) for c in history] if history else [[lh, rh]]}
+        if after:
+            w["_hkey"] = "%s:after:%s" % (key, after)
+        if pf:
+            w["_prefix"] = {"shard": list(pf[0]), "upto": pf[1]}
+            w["_pkey"] = key + ":history-dependent"
+        acc.violation(key, w, msg)
+
     if locale == 0:
         # default locale: androguard documents "\0\0"; the round trip must give locale 0 again
         try:
@@ -134,16 +153,16 @@ def judge(ax, acc, lh, rh):
             back = e
         acc.case(outcome=("default", back == 0))
         if back != 0:
-            acc.violation("default:pack", w, "default locale reported as %r re-encodes to %r" % (got, back))
+            violation("default:pack", "default locale reported as %r re-encodes to %r" % (got, back))
         return
     want = expected_string(lh, rh)
     ok_dec = got == want
-    acc.case(nontrivial=locale, outcome=(kl, kr, "dec", ok_dec))
+    acc.case(nontrivial=(locale, after), outcome=(kl, kr, "dec", after, ok_dec))
     if not ok_dec:
         # which half is wrong?  (input-side key: the kind of the half that was mis-decoded)
         lang_want = want.split("-r")[0]
         bad = kl if not (isinstance(got, str) and got.split("-r")[0] == lang_want) else kr
-        acc.violation("%s:decode" % bad, w, "locale 0x%08x (%s) reported as %r" % (locale, want, got))
+        violation("%s:decode" % bad, "locale 0x%08x (%s) reported as %r" % (locale, want, got))
         return
     try:
         cfg = ax.ARSCResTableConfig(None, locale=got)
@@ -151,15 +170,15 @@ def judge(ax, acc, lh, rh):
     except Exception as e:      # noqa
         back, again = e, None
     ok_enc = back == locale and again == got
-    acc.case(outcome=(kl, kr, "enc", ok_enc))
+    acc.case(outcome=(kl, kr, "enc", after, ok_enc))
     if not ok_enc:
         if isinstance(back, int) and (back & 0xFFFF) == lh and kr != "none":
             bad = kr
         else:
             bad = kl
-        acc.violation("%s:pack" % bad, w,
-                      "ARSCResTableConfig(locale=%r) has locale %s (reports %r); the configuration that reported this string has 0x%08x"
-                      % (got, "0x%08x" % back if isinstance(back, int) else repr(back), again, locale))
+        violation("%s:pack" % bad,
+                  "ARSCResTableConfig(locale=%r) has locale %s (reports %r); the configuration that reported this string has 0x%08x"
+                  % (got, "0x%08x" % back if isinstance(back, int) else repr(back), again, locale))
 
 
 H_US, H_GB = half("US", ord("0")), half("GB", ord("0"))
@@ -172,6 +191,9 @@ def space(ctx):
             "B_region_halves": 65536, "B_languages": ["en", "fil(packed)"],
             "C_two_letter_languages": 676, "C_regions": 1297, "D_packed_languages": 17576, "D_regions": ["", "US", "419(packed)"],
             "E_packed_regions": 1000, "E_languages": ["en", "de", "fil(packed)"], "default": 1,
+            "histories": {"byte_pairs_with_two_judged_readings": 1000,
+                          "orders": ["language then region", "region then language", "both in one configuration"],
+                          "isolation": "every shard runs in a fork of a pristine process; its call order is its history"},
             "total": 65536 * 4 + 65536 * 2 + 676 * 1297 + 17576 * 3 + 3000 + 1}
 
 
@@ -181,32 +203,30 @@ def shards(ctx):
     s += [("C", c) for c in LOW]                         # 26 shards x 26 x 1297
     s += [("D", c) for c in LOW[::2]]                    # 13 shards x 2 x 676 x 3
     s += [("E",)]
+    s += [("hist", order, block) for order in ("LR", "RL", "same") for block in range(1)]
     return s
 
 
-def run_shard(ctx, shard):
-    from androguard.core import axml as ax
-    acc = Acc()
+def cases(shard):
+    """The (language half, region half) sequence of a product shard; this order is the shard's history."""
     k = shard[0]
     if k == "A":
         for h in range(shard[1] << 8, (shard[1] + 16) << 8):
             # enumerate by first byte low so that simple halves come first
             lh = ((h & 0xFF) << 8) | (h >> 8)
             for rh in (0, H_US, H_GB, H_419):
-                judge(ax, acc, lh, rh)
+                yield lh, rh
     elif k == "B":
         for h in range(shard[1] << 8, (shard[1] + 32) << 8):
             rh = ((h & 0xFF) << 8) | (h >> 8)
             for lh in (H_EN, H_FIL):
-                judge(ax, acc, lh, rh)
+                yield lh, rh
     elif k == "C":
         regs = [0] + [half(a + b, ord("0")) for a in REG for b in REG]
         for b in LOW:
             lh = half(shard[1] + b, ord("a"))
             for rh in regs:
-                judge(ax, acc, lh, rh)
-        if shard[1] == "e":
-            acc.sample({"locale": "0x%08x" % (H_EN | (H_US << 16)), "reported": decode(ax, H_EN | (H_US << 16))})
+                yield lh, rh
     elif k == "D":
         i = LOW.index(shard[1])
         for a in LOW[i:i + 2]:
@@ -214,23 +234,94 @@ def run_shard(ctx, shard):
                 for c in LOW:
                     lh = half(a + b + c, ord("a"))
                     for rh in (0, H_US, H_419):
-                        judge(ax, acc, lh, rh)
-        if shard[1] == "e":
-            acc.sample({"locale": "0x%08x" % (H_FIL | (H_419 << 16)), "reported": decode(ax, H_FIL | (H_419 << 16)),
-                        "expected": expected_string(H_FIL, H_419)})
+                        yield lh, rh
     else:
         for n in range(1000):
             rh = half("%03d" % n, ord("0"))
             for lh in (H_EN, H_DE, H_FIL):
-                judge(ax, acc, lh, rh)
-        judge(ax, acc, 0, 0)
+                yield lh, rh
+        yield 0, 0
+
+
+def histories(shard):
+    """Shard ("hist", order, block): for every byte pair that is both a judged packed language (letters a..j) and a judged
+    packed numeric region (digits), decode it as a language and then as a region ("LR") or the other way round ("RL"),
+    each on a fresh ARSCResTableConfig, in one process; plus both readings inside one configuration ("same").
+    Yields (calls, after) - every call of `calls` is judged with the calls before it as its history."""
+    _, order, block = shard
+    for n in range(block * 1000, block * 1000 + 1000):
+        h = half("%03d" % n, ord("0"))
+        as_lang, as_region = (h, 0), (H_EN, h)
+        if order == "LR":
+            yield [as_lang, as_region], "lang3"
+        elif order == "RL":
+            yield [as_region, as_lang], "region3"
+        else:
+            yield [(h, h)], None
+
+
+def _run(ctx, ax, shard, acc, stop=None):
+    """Execute the shard's sequence; stop=position: run the same sequence but judge only that case (prefix replay)."""
+    dummy = Acc()
+    n = 0
+    if shard[0] == "hist":
+        for calls, after in histories(shard):
+            for k, (lh, rh) in enumerate(calls):
+                judge(ax, acc if stop is None or stop == n else dummy, lh, rh, history=calls[:k + 1],
+                      after=after if k else None, pf=(shard, n))
+                if stop == n:
+                    return
+                n += 1
+        return
+    for lh, rh in cases(shard):
+        judge(ax, acc if stop is None or stop == n else dummy, lh, rh, pf=(shard, n))
+        if stop == n:
+            return
+        n += 1
+
+
+def _shard_main(ctx, shard):
+    """Runs in a fork of a pristine worker: class/module state of the code under test is pristine at entry."""
+    from androguard.core import axml as ax
+    from mc import fresh
+    acc = fresh.HistoryAcc(_SRV[0], replay, ctx)
+    _run(ctx, ax, shard, acc)
+    if shard == ("C", "e"):
+        acc.sample({"locale": "0x%08x" % (H_EN | (H_US << 16)), "reported": decode(ax, H_EN | (H_US << 16))})
+    if shard == ("D", "e"):
+        acc.sample({"locale": "0x%08x" % (H_FIL | (H_419 << 16)), "reported": decode(ax, H_FIL | (H_419 << 16)),
+                    "expected": expected_string(H_FIL, H_419)})
+    if shard == ("hist", "LR", 0):
+        acc.sample({"history": ["decode language half 0x%04x (%s)" % (half("024", ord("0")), "ace"),
+                                "decode en + region half 0x%04x" % half("024", ord("0"))],
+                    "reported": [decode(ax, half("024", ord("0"))), decode(ax, H_EN | (half("024", ord("0")) << 16))]})
     return acc
 
 
+_SRV = [None]
+
+
+def run_shard(ctx, shard):
+    import androguard.core.axml      # noqa: imported, never called here - this process stays pristine
+    from mc import fresh
+    if _SRV[0] is None or _SRV[0].owner != os.getpid():
+        _SRV[0] = fresh.Pristine()
+    return fresh.isolated(_shard_main, ctx, tuple(shard))
+
+
 def replay(ctx, w):
+    """Executes the witness history in this (fresh) process and judges its last call."""
     from androguard.core import axml as ax
     acc = Acc()
-    judge(ax, acc, w["lang"], w["region"])
+    if "history" not in w:                  # witness format of the first version
+        judge(ax, acc, w["lang"], w["region"])
+    elif "prefix" in w:
+        _run(ctx, ax, tuple(w["prefix"]["shard"]), acc, stop=w["prefix"]["upto"])
+    else:
+        dummy = Acc()
+        hist = [tuple(c) for c in w["history"]]
+        for k, (lh, rh) in enumerate(hist):
+            judge(ax, acc if k == len(hist) - 1 else dummy, lh, rh, history=hist[:k + 1])
     if acc.viol:
         return "; ".join(v["msg"] for v in acc.viol.values())
     return None
